@@ -107,6 +107,7 @@ def run_case(seed, tier, rec, st):
                     t = ("tv", tvn)
         ref = Ref(fam)
         tt = common.eval_type(fam, t)
+        t = common.align_unions(fam, t, tt)      # typing's alias cache may hand back another member order
         try:
             enc, dec = BasicEncoder(tt), BasicDecoder(tt)
         except Exception as e:
